@@ -231,6 +231,7 @@ def run(rep, ix, tier):
     run_to68(rep, ix)
     run_rp66(rep, ix)
     run_bit(rep, ix)
+    run_state(rep, ix)
     rep.floor('R-C07-VALUE', 60)
     rep.floor('R-C07-CONSUME', 25)
     rep.floor('R-C07-REGISTRY', 40)
@@ -245,6 +246,38 @@ def _struct_for(ix, code):
     if not isinstance(v, StructVal):
         raise AnalysisError(f'STRUCT_RC_{code} is not a struct.Struct')
     return v
+
+
+def run_state(rep, ix):
+    """decoders re-used after a refusal / at the end of the data (state and lifecycle clauses)"""
+    from .. import cfg as cfgmod
+    from ..loader import walk_no_nested
+    PF = 'TotalDepth.RP66V1.core.pFile'
+    pm = ix.module(PF)
+    f = ix.get_func(PF, 'LogicalData.chunk')
+    site = f'{PF}:LogicalData.chunk'
+    rep.fn(site)
+    g = cfgmod.CFG(f)
+    changes = [s_ for s_ in g.stmts() if isinstance(s_, (ast.Assign, ast.AugAssign)) and any((attr_chain(t) or '').startswith('self.') for t in (s_.targets if isinstance(s_, ast.Assign) else [s_.target]))]
+    raises = [s_ for s_ in g.stmts() if isinstance(s_, ast.Raise)]
+    late = [(c_, r_) for c_ in changes for r_ in raises if g.path_avoiding(c_, r_, set(), skip_exc=True)]
+    rep.ob('R-C07-CONSUME', site, 'a read that is refused (too few bytes left) consumes nothing: no refusal is reachable once self.index has moved', bool(changes) and bool(raises) and not late,
+           found='; '.join(f'{ast.unparse(c_)[:40]} then {ast.unparse(r_)[:30]}' for c_, r_ in late[:2]), required='every raise precedes the first store to self.*', node=late[0][0] if late else f, module=pm)
+    rm = ix.module(LIS_R)
+    f = ix.get_func(LIS_R, 'readRepCode')
+    site = f'{LIS_R}:readRepCode'
+    rep.fn(site)
+    ln = f.args.args[2].arg
+    fl = f.args.args[1].arg
+    ok, found = False, 'no readLrBytes call'
+    for blk in [n.body for n in walk_no_nested(f) if isinstance(n, ast.If)] + [f.body]:
+        for i, st in enumerate(blk):
+            if not isinstance(st, (ast.If, ast.For, ast.While, ast.Try, ast.With)) and any(isinstance(c, ast.Call) and ast.unparse(c.func) == f'{fl}.readLrBytes' for c in ast.walk(st)):
+                guards = [g_ for g_ in blk[:i] if isinstance(g_, ast.If) and show(nf(g_.test)) == common.nfs(f'{ln} == 0') and len(g_.body) >= 1 and isinstance(g_.body[-1], ast.Return)
+                          and isinstance(g_.body[-1].value, ast.Constant) and g_.body[-1].value.value == b'']
+                ok, found = bool(guards), 'guards before the read: ' + str(len(guards))
+    rep.ob('R-C07-CONSUME', site, "a text of length 0 is b'' without asking the file (readLrBytes gives None once the logical data is used up, also for 0 bytes)", ok, found=found,
+           required=f"if {ln} == 0: return b'' before {fl}.readLrBytes({ln})", node=f, module=rm)
 
 
 def run_lis(rep, ix):
